@@ -13,7 +13,7 @@ CLAIMS = {
    text="Static analysis (exhaustive over a finite set of code sites): every optimizer rewrites/inspects every reference slot of the IR schema; "
         "the CSE key covers every behavioural field of the node classes it merges (exceptions re-verified structurally); folding guards every consulted "
         "operand against user-declared inputs and keeps the output type; both pipelines run the passes in order under the optimize flag; the spanning tree "
-        "stays inside one (signal, colour, source) group. Decides these necessary conditions, not observational equivalence of the two builds.",
+        "stays inside one (signal, colour, source) group. Decides these necessary conditions, not observational equivalence of the two builds. A folded single-condition decider keeps `output constant if comparison else 0` (R9).",
    technique="IR-schema exhaustiveness over isinstance ladders (ast), def-use slices, sibling-pipeline comparison",
    ref="DESIGN.md §2 C10"),
  "C11": dict(
@@ -42,14 +42,14 @@ CLAIMS = {
  "C16": dict(
    text="Static analysis: the iteration-sequence function must match an accepted idiom (strict exclusive end per direction, append before advance, start from start, list order kept); "
         "analyzer and lowerer both draw from that one function; resolvers raise instead of defaulting; per-iteration scope save/cut-back for every map the body can mutate; iterator "
-        "immutable; declaration ids fresh per iteration; transformer passes start/stop/step/values in grammar order. Decides these necessary conditions, not equivalence with the unrolled program.",
+        "immutable; declaration ids fresh per iteration; transformer passes start/stop/step/values in grammar order. Decides these necessary conditions, not equivalence with the unrolled program. Loop scope is restored by value for the names an iteration binds; the analyzer rewrites shared syntax nodes only with functions of the syntax (R6); resolvers prefer parameters over iterators (R7).",
    technique="idiom matching over ast + CFG + call-graph effect analysis + def-use slices",
    ref="DESIGN.md §2 C16"),
  "C13": dict(
    text="Static analysis over constant-evaluated tables and slot traces: the allocatable list minus the exclusion set (which must name RESERVED_SIGNALS and WILDCARD_SIGNALS whenever the list "
         "contains one of them) can yield neither a wildcard nor the write-enable signal; the three reserved tables agree; the allocator returns pool members only; contributions to the exclusion "
         "sets are classified by the AST attribute they read (variable name vs signal name) and an explicit built-in signal name must reach it; explicit names pass name resolution unchanged. "
-        "Decides these table/flow clauses, not the renaming-invariance consequence.",
+        "Decides these table/flow clauses, not the renaming-invariance consequence. IR-derived signal properties of combinator placements pass through a name resolver (R4); the CSE key separates output types (R5).",
    technique="constant evaluation of tables + def-use slot tracing with kind classification + guard-chain analysis",
    ref="DESIGN.md §2 C13"),
  "C17": dict(
@@ -57,7 +57,7 @@ CLAIMS = {
         "expansion; the default search path is constant-evaluated with __file__ bound to the module's location and every documented spelling of every bundled library import must resolve "
         "through an absolute entry; the selection-only library functions (abs, sign, min, max, clamp, between, skeleton of mod_positive) are parsed with the repository grammar and checked "
         "on one representative of every weak ordering of their arguments and 0, which is an exact finite abstraction for bodies built from comparisons and selections. lerp, the bit "
-        "functions, div_floor and the arithmetic of mod_positive are not decided (32-bit identities need a solver or evaluation); 'import == pasted text' beyond R1/R2 is not decided.",
+        "functions, div_floor and the arithmetic of mod_positive are not decided (32-bit identities need a solver or evaluation); 'import == pasted text' beyond R1/R2 is not decided. Folding of `cond : value` deciders keeps a selected 0 (R4, shared with C10-R9).",
    technique="CFG dominance + constant evaluation of the search path + order-type enumeration over Lark parse trees of lib/math.facto",
    ref="DESIGN.md §2 C17"),
  "C09": dict(
@@ -79,7 +79,7 @@ CLAIMS = {
  "C18": dict(
    text="Static analysis with the game-data tables as oracle: POWER_POLE_CONFIG rows vs prototype data (supply area, copper reach, collision box); grid step expression <= 2 x radius in both axes and "
         "first-pole offset; option gating by CFG dominance and value flow from both CLIs; pole creators enumerated; copper connection guarded by the reach of both poles; trim decisions guarded by "
-        "the grid-pole flag and the coverage test. NOT decided: coverage of every consumer for a given layout, single electric network, behaviour unchanged by poles.",
+        "the grid-pole flag and the coverage test. NOT decided: coverage of every consumer for a given layout, single electric network, behaviour unchanged by poles. The grid's bounding-box accumulators start on the origin side, as required by the recognised extent formulas.",
    technique="constant tables vs draftsman prototype data + CFG dominance + guard-chain analysis + value-flow through the pipelines",
    ref="DESIGN.md §2 C18"),
  "C19": dict(
@@ -87,7 +87,7 @@ CLAIMS = {
         "statement forms) or be one of three frozen allow-list entries with reasons; id()/hash() only as lookup keys; every write to process-global state (draftsman signal table, os.environ, "
         "module-level mutables) is classified by whether the written value is program-derived, against the decision-reads of the same state; logical configuration values have no position in "
         "their backward slice and position-derived spanning-tree keys may only add, never replace, a recorded edge colour. Independence from solver time budget/CPU load as such is not decided; "
-        "R4 is the structural reason positions cannot leak into logic.",
+        "R4 is the structural reason positions cannot leak into logic. Insertion order taken from an unsorted set iteration taints the container it fills; the importing file's directory is searched before cwd-relative entries (R5).",
    technique="set-type inference lint + effect analysis on process-global state + def-use layering slices",
    ref="DESIGN.md §2 C19"),
  "C05": dict(
@@ -125,7 +125,7 @@ CLAIMS = {
         "every spelling; an inlined comparison is taken only for `signal CMP int -> 1` deciders whose only consumer (complete usage index) is the property write, its three values are passed "
         "unchanged through comparison_data to the circuit condition, removal is scheduled only there and the entity is re-wired to the decider's input; any()/all() inlining accepts only "
         "`CMP constant`, maps to the right wildcard and passes operator/constant unchanged; entity outputs are sourced by the entity. NOT decided: that the named signal arrives alone and "
-        "undoubled on the entity's connector for a given layout; entity contents.",
+        "undoubled on the entity's connector for a given layout; entity contents. A comparison exposed under a name of its own is not inlined away.",
    technique="sibling-branch comparison + key/value pass-through over dict displays + guard-chain analysis",
    ref="DESIGN.md §2 C06"),
  "C12": dict(
@@ -142,7 +142,7 @@ CLAIMS = {
         "analyzer, lowerer, DSL->Factorio map) and dispatch; operand order from the AST through builder, IR, placement keys to the first/second slots of the emitted combinator; the builder "
         "terms of && / || are extracted per path and evaluated in the checker's own combinator algebra over {-2..2}^2 against the documented truth value; chain folding only over one operator; "
         "the result-type decision table; spanning-tree colour keys never replace a logical edge's colour. NOT decided: clause (e) — that the wiring delivers each operand alone on the colour "
-        "the combinator reads, constant inlining, settling for every input.",
+        "the combinator reads, constant inlining, settling for every input. A typed literal keeps its value expression on every lowering path (R8).",
    technique="grammar-model ladder check + table agreement + def-use operand-order trace + extracted-term evaluation in a small algebra",
    ref="DESIGN.md §2 C01"),
  "C02": dict(
@@ -157,7 +157,7 @@ CLAIMS = {
    text="Static analysis (thin): names are marked referenced only on the identifier read path; every anchor placement is followed on all paths by the wiring call (CFG), anchor ids are a "
         "function of (signal, alias), constants are skipped only under their own name; debug_info keys written by the placers are read by the description formatter (bag agreement), declared "
         "names override node ids, inputs and anchors are labelled; the is_output formula; every reason to materialise a constant is still a disjunct. NOT decided: that the anchor's network "
-        "carries exactly the result's value.",
+        "carries exactly the result's value. Names follow their node through node-eliminating passes (R6); the declared-name override of a label has no extra condition.",
    technique="CFG must-pass-through + bag-key agreement + formula/guard-chain checks",
    ref="DESIGN.md §2 C20"),
 }
